@@ -267,6 +267,17 @@ func (e *Engine) SpendTx(w *Wallet, ins []*Owned, ringSize int, pay *big.Int, to
 	}
 	var dests []types.DestEntry
 	fee := new(big.Int)
+	if toAcct != nil && pay == nil {
+		// full withdrawal: everything but the fee goes to the account, NO
+		// confidential output is created (no change)
+		fee.Mul(new(big.Int).SetUint64(types.CalNewAmountGas(inSum, types.EverLiankeFee)), big.NewInt(types.ParGasPrice))
+		pay = new(big.Int).Sub(inSum, fee)
+		if pay.Cmp(us.Unit) < 0 {
+			return nil, fmt.Errorf("inputs do not cover the fee")
+		}
+		dests = append(dests, &types.AccountDestEntry{To: *toAcct, Amount: pay})
+		return e.signSpend(w, sources, dests)
+	}
 	if toAcct != nil {
 		dests = append(dests, &types.AccountDestEntry{To: *toAcct, Amount: new(big.Int).Set(pay)})
 		fee.Mul(new(big.Int).SetUint64(types.CalNewAmountGas(pay, types.EverLiankeFee)), big.NewInt(types.ParGasPrice))
@@ -286,6 +297,10 @@ func (e *Engine) SpendTx(w *Wallet, ins []*Owned, ringSize int, pay *big.Int, to
 	if change.Sign() > 0 {
 		dests = append(dests, &types.UTXODestEntry{Addr: w.Acc.Addr, Amount: change, IsChange: true})
 	}
+	return e.signSpend(w, sources, dests)
+}
+
+func (e *Engine) signSpend(w *Wallet, sources []*types.UTXOSourceEntry, dests []types.DestEntry) (*types.UTXOTransaction, error) {
 	var tx *types.UTXOTransaction
 	var err error
 	site, msg, panicked := kernel.Try(func() {
